@@ -121,6 +121,21 @@ Proof.
     simpl. exact (ostr_eqb_eq _ _ E).
 Qed.
 
+(* the same with the default an EAttribute declares: literal, explicit value, or the type's *)
+Theorem single_roundtrip_declared sd literal explicit type_default v :
+  let d := effective_default literal explicit type_default in
+  decode_single d (encode_single sd d v) = v.
+Proof. intros d. exact (single_roundtrip sd d v). Qed.
+
+(* writer and reader must agree on the default: a writer that tests against another default
+   than the one an absent feature reads as loses the value (the shape of a seeded regression:
+   `value == attr.default_value` instead of get_default_value()) *)
+Example single_two_defaults_lose_the_value :
+  let type_default := Some [48] in            (* '0' *)
+  let declared := effective_default (Some [51]) None type_default in     (* literal '3' *)
+  decode_single declared (encode_single false type_default (Some [48])) = Some [51].
+Proof. vm_compute. reflexivity. Qed.
+
 (* ---- reference lists ---- *)
 
 Lemma has_space_blank s : has_space s = false -> has_blank s = false.
